@@ -135,7 +135,14 @@ func (s *SourceSplitter) IsSourceSplitter() {}
 
 func (s *SourceSplitter) NotifySplitsFinished(sourceRunnerID string, splitIDs []string) {
 	s.splitTracker.RemoveSplits(splitIDs)
-	s.splitsDidFinish <- struct{}{}
+
+	// Only signal: a pending signal already makes the assignment loop look at
+	// the tracker again. Blocking here would block the job's task queue, which
+	// the assignment loop itself waits on to hand out splits.
+	select {
+	case s.splitsDidFinish <- struct{}{}:
+	default:
+	}
 }
 
 func (s *SourceSplitter) Close() error {
